@@ -31,7 +31,7 @@ ASSUMPTIONS = [
 ]
 COMPONENTS = {"real": ["dali.sequences.Commissioning / _find_next", "dali.gear.general initialisation commands and responses"],
               "stub": ["bus and control gear incl. the random-address generator (sim/busim.py)", "driver"]}
-PROBES = ["second-line-commissioned-concurrently", "units-found-in-initialisation-state", "second-run-same-arguments", "stacked-tridonic", "stacked-hasseb", "clash-restart", "two-clash-rounds", "redraw-equals-withdrawn-unit", "addresses-exhausted", "address-0xffffff",
+PROBES = ["options-by-position", "second-line-commissioned-concurrently", "units-found-in-initialisation-state", "second-run-same-arguments", "stacked-tridonic", "stacked-hasseb", "clash-restart", "two-clash-rounds", "redraw-equals-withdrawn-unit", "addresses-exhausted", "address-0xffffff",
           "address-0", "preexisting-duplicates", "unit-does-not-store", "unit-does-not-verify", "dry-run", "readdress",
           "more-than-64-units", "empty-bus", "in-use-address-in-permitted-set"]
 
@@ -103,6 +103,7 @@ def gen_plan(seed, tier="quick"):
         r.shuffle(avail)
     plan = {"engine": "busim", "property": PROP, "seed": seed, "units": units, "available": avail,
             "readdress": r.random() < 0.4, "dry_run": r.random() < 0.15}
+    plan["call_form"] = plans.rng_for(seed, PROP + "-call").choice(["kw", "kw", "pos", "pos2", "minimal"])
     h = plans.rng_for(seed, PROP + "-history")
     if h.random() < 0.25:
         # the bus is not fresh: an earlier run was aborted within the gear's 15 min
@@ -155,7 +156,24 @@ def run_plan(plan):
                      "gen": lambda: (a for a in list(avail)), "filter": lambda: filter(lambda a: True, list(avail)),
                      "range": lambda: avail_obj}[form]()
         form_used = form
-    gen = Commissioning(available_addresses=avail_obj, readdress=readdress, dry_run=dry)
+    # the options by keyword or by position, as documented: (available_addresses, readdress, dry_run)
+    cf = plan.get("call_form", "kw")
+    try:
+        if cf == "pos":
+            gen = Commissioning(avail_obj, readdress, dry)
+        elif cf == "pos2":
+            gen = Commissioning(avail_obj, readdress, dry_run=dry)
+        elif cf == "minimal" and not dry:
+            gen = Commissioning(avail_obj, readdress) if readdress else (
+                Commissioning(avail_obj) if avail_obj is not None else Commissioning())
+        else:
+            gen = Commissioning(available_addresses=avail_obj, readdress=readdress, dry_run=dry)
+    except TypeError as e_call:
+        def _refused(e=e_call):         # the documented way of calling is refused: the run "raises" at once
+            raise e
+            yield
+        gen = _refused()
+    probes_cf = cf
     transport = plan.get("transport")
     if transport:
         sr, rr_ = drvsim.run_stacked(transport, plan["seed"], units, lambda: gen)
@@ -183,6 +201,8 @@ def run_plan(plan):
     probes = {}
     if form_used:
         probes["permitted-set-as-" + form_used] = 1
+    if probes_cf != "kw":
+        probes["options-by-position"] = 1
 
     def V(clause, detail, site=None):
         vs.append(Violation(PROP, clause, detail, driver="commissioning", site=site))
